@@ -30,3 +30,18 @@ Definition make_body (formula_body : list Z) (have_ml : bool) (tree : node) (ind
             ((0, len dummy_def, dummy_def, []) :: map (unindent_patch ind) (ml_nodes tree)))
          (fun r => Ok (snd r))
   else Ok ib.
+
+(* _do_make_formula_body, the loop over ast.walk(tree) (without the lambda wrapping of IF/ISERR/... arguments):
+   the hint "some literal spans lines", and for every Name node whose id starts with DOLLAR the patch `$` -> `rec.`
+   at the position mapped back through the Replacer of the temporary text (tables io/oo), when DOLLAR_REGEX
+   matches there *)
+Definition is_ml_literal (n : node) : bool := is_literal_kind (node_kind n) && mem NL (node_text n).
+
+Definition dollar_patches (formula io oo : list Z) (n : node) : list patch :=
+  if is_Name n && starts_with Dollar.s_DOLLAR (name_id n) then
+    let ip := get_input_pos io oo (node_start n) in
+    if Dollar.dollar_match_at formula ip then [make_patch formula ip (ip + 1) Dollar.s_rec] else []
+  else [].
+
+Definition walk_model (formula io oo : list Z) (nodes : list node) : bool * list patch :=
+  (existsb is_ml_literal nodes, flat_map (dollar_patches formula io oo) nodes).
